@@ -4,6 +4,7 @@ import (
 	"context"
 	"errors"
 	"fmt"
+	relaytypes "github.com/attestantio/go-block-relay/types"
 	"strings"
 	"time"
 
@@ -53,13 +54,17 @@ func c12Doc(name string, v2pub phase0.BLSPubKey) ([]byte, error) {
 		return []byte(`{"version":2,"fee_recipient":"` + feeA + `","relays":{"` + c12Relay + `":{}}}`), nil
 	case "B":
 		return []byte(`{"version":2,"fee_recipient":"` + feeB + `","relays":{"` + c12Relay + `":{}}}`), nil
+	case "R":
+		// a document that parses and names, besides the good relay, a relay whose address is no URL
+		return []byte(`{"version":2,"fee_recipient":"` + feeB + `","relays":{"` + c12Relay + `":{},"%zz":{}}}`), nil
 	case "U":
 		// resolvable for validator 2 (first entry matches), unresolvable for everybody else (an entry
 		// whose proposer is the zero public key cannot be applied)
 		return []byte(`{"version":2,"fee_recipient":"` + feeA + `","relays":{"` + c12Relay + `":{}},"proposers":[{"proposer":"` + v2pub.String() + `","fee_recipient":"` + feeP + `"},{"proposer":"0x` + strings.Repeat("00", 48) + `"}]}`), nil
 	case "V1":
-		// legacy format: the default configuration leaves gas limit and builder to be filled in
-		return []byte(`{"default_config":{"fee_recipient":"` + feeA + `"}}`), nil
+		// legacy format: the default configuration and the second validator's own entry leave gas limit and builder
+		// to be filled in
+		return []byte(`{"proposer_config":{"` + v2pub.String() + `":{"fee_recipient":"` + feeP + `"}},"default_config":{"fee_recipient":"` + feeA + `"}}`), nil
 	case "err":
 		return nil, errors.New("scripted fetch failure")
 	case "malformed":
@@ -144,6 +149,8 @@ func c12Expect(doc string, v int) (fee string, nrel int, isErr bool) {
 		return feeA, 1, false
 	case "B":
 		return feeB, 1, false
+	case "R":
+		return feeB, 2, false
 	case "U":
 		if v == 2 {
 			return feeP, 1, false
@@ -156,6 +163,8 @@ func c12Expect(doc string, v int) (fee string, nrel int, isErr bool) {
 func c12Units(tier string) []hx.Unit {
 	outcomes := []string{"A", "B", "U", "err", "malformed", "empty", "braces", "null"}
 	reqKinds := []string{"lookup1", "lookup2", "auction1", "auction2", "register"}
+	type combo struct{ seq, rs []string }
+	var combos []combo
 	// request sets: singles and unordered pairs
 	var reqSets [][]string
 	for i, a := range reqKinds {
@@ -182,10 +191,43 @@ func c12Units(tier string) []hx.Unit {
 			}
 		}
 	}
-	var units []hx.Unit
 	for _, seq := range seqs {
 		for _, rs := range reqSets {
-			seq, rs := seq, rs
+			combos = append(combos, combo{seq, rs})
+		}
+	}
+	// a document naming a relay whose address is no URL (the builder client for it cannot be made), next to
+	// the other kinds of outcome
+	rSeqs := [][]string{{"R", "R"}, {"A", "R"}, {"R", "A"}, {"R", "err"}, {"err", "R"}, {"R", "U"}}
+	rSets := [][]string{{"lookup1"}, {"lookup2"}, {"auction1"}, {"auction2"}, {"register"}, {"lookup1", "register"}}
+	if tier == "thorough" {
+		rSeqs = append(rSeqs, []string{"R", "R", "A"}, []string{"A", "R", "err"}, []string{"R", "malformed", "R"})
+		rSets = append(rSets, []string{"auction1", "register"}, []string{"rest"}, []string{"rest", "register"})
+	}
+	for _, seq := range rSeqs {
+		for _, rs := range rSets {
+			combos = append(combos, combo{seq, rs})
+		}
+	}
+	// a registration forwarded over REST (as a beacon node or a validator client sends it) next to the
+	// refresher and another request
+	restRep := []string{"A", "U", "err", "null"}
+	restSets := [][]string{{"rest"}, {"rest", "lookup1"}, {"rest", "register"}}
+	if tier == "thorough" {
+		restRep = append(restRep, "B", "malformed")
+		restSets = append(restSets, []string{"rest", "rest"}, []string{"rest", "auction2"})
+	}
+	for _, a := range restRep {
+		for _, b := range restRep {
+			for _, rs := range restSets {
+				combos = append(combos, combo{[]string{a, b}, rs})
+			}
+		}
+	}
+	var units []hx.Unit
+	{
+		for _, cb := range combos {
+			seq, rs := cb.seq, cb.rs
 			st := &c12State{}
 			u := hx.Unit{Name: fmt.Sprintf("C12/fetch[%s]/req[%s]", strings.Join(seq, ","), strings.Join(rs, ",")), Cfg: mc.Config{Horizon: int64(60 * time.Second)}}
 			u.Bound = 1
@@ -264,6 +306,10 @@ func c12Body(st *c12State, seq, rs []string) {
 				_, r.err = svc.AuctionBlock(ctx, 3300, phase0.Hash32{1}, v2.pubkey())
 			case "register":
 				svc.VerifSubmitValidatorRegistrations(ctx)
+			case "rest":
+				// a beacon node passes on the registration of a validator vouch does not control
+				ext := newAccount("X", "ext", 9)
+				_, r.err = svc.ValidatorRegistrations(ctx, []*relaytypes.SignedValidatorRegistration{{Message: &relaytypes.ValidatorRegistration{FeeRecipient: bellatrix.ExecutionAddress{0xee}, GasLimit: 12345, Timestamp: mc.Base, Pubkey: ext.pubkey()}, Signature: phase0.BLSSignature{0xe1}}})
 			}
 			r.done = true
 		})
@@ -332,7 +378,7 @@ func c12Check(st *c12State, seq, rs []string, r *mc.Result) mc.Verdict {
 		}
 	}
 	// configuration in force: the last document that parsed, else the fallback values
-	good := func(d string) bool { return d == "A" || d == "B" || d == "U" }
+	good := func(d string) bool { return d == "A" || d == "B" || d == "U" || d == "R" }
 	last := ""
 	seen := map[string]bool{"": true}
 	for _, d := range seq {
@@ -386,7 +432,7 @@ func init() {
 	hx.Register(&hx.Prop{
 		ID:    "C12",
 		Title: "The block relay keeps answering whatever the config source does",
-		Rule: "for every sequence of 2 fetch outcomes (thorough: also every sequence of 3 over five representative outcomes) over {doc A, doc B, doc U (one validator unresolvable), error, malformed, empty, '{}', 'null'} (the first consumed by the constructor) and every set of 1-2 concurrent requests over {lookup v1, lookup v2, auction v1, auction v2, registration round}: all interleavings of the refresher and the request goroutines on the real blockrelay service within the preemption bound (quick 1, thorough 2), followed by a further refresh, lookups and bid requests (as a beacon node makes them) for both validators; " +
+		Rule: "for every sequence of 2 fetch outcomes (thorough: also every sequence of 3 over five representative outcomes) over {doc A, doc B, doc U (one validator unresolvable), doc R (a relay address that is no URL), error, malformed, empty, '{}', 'null'} (the first consumed by the constructor) and every set of 1-2 concurrent requests over {lookup v1, lookup v2, auction v1, auction v2, registration round, forwarded REST registration}: all interleavings of the refresher and the request goroutines on the real blockrelay service within the preemption bound (quick 1, thorough 2), followed by a further refresh, lookups and bid requests (as a beacon node makes them) for both validators; " +
 			"oracle: every call returns, no goroutine blocked, final lookups answer from the last good document (fallback if none); non-trivial = at least one contended scheduling point; distinct = distinct request-result vectors",
 		Assumptions: []string{
 			"RWMutex has Go's writer preference (a pending writer blocks new readers)",
